@@ -44,7 +44,8 @@ THROW = ("(\\t -> if (t == 2) throw \"boom\" else t)", None)
 REL = {"succ": ("(\\p, q -> q == p + 1)", lambda a, b: b == a + 1), "lt": ("<", lambda a, b: a < b), "le": ("<=", lambda a, b: a <= b),
        "eq": ("==", lambda a, b: a == b), "samepar": ("(\\p, q -> p % 2 == q % 2)", lambda a, b: a % 2 == b % 2)}
 
-KINDS = ["list", "vector", "bytes", "string", "stream"]
+# "stream_dropped" = a stream(seq) whose cursor has advanced: only the remaining elements are its contents
+KINDS = ["list", "vector", "bytes", "string", "stream", "stream_dropped"]
 
 
 def ksrc(kind, xs):
@@ -56,6 +57,8 @@ def ksrc(kind, xs):
         return render(bytes(xs))
     if kind == "string":
         return render("".join(chr(97 + x) for x in xs))
+    if kind == "stream_dropped":
+        return "(stream(%s) drop 2)" % render([8, 9] + list(xs))
     return "stream(%s)" % render(list(xs))
 
 
@@ -213,6 +216,15 @@ def spec(c):
     if fn == "ziplongest_with":
         src, f = BINF[cb]
         return "%s ziplongest %s with %s" % (S, render(ys), src), ziplongest_reduce([xs, ys], f), "eq"
+    if fn == "ziplongest3_with":
+        # three sequences: each index's batch is reduced pairwise from the left, f(f(x1, x2), x3)
+        src, f = BINF[cb]
+        zs = [(x + y) % 10 for x, y in zip(xs[1:], ys + ys + ys + [0] * 70)]
+        return "ziplongest(%s, %s, %s, %s)" % (S, render(ys), render(zs), src), ziplongest_reduce([xs, ys, zs], f), "eq"
+    if fn == "zip3_with":
+        src, f = BINF[cb]
+        zs = [(x * 3 + 1) % 10 for x in xs[1:]]
+        return "zip(%s, %s, %s, %s)" % (S, render(ys), render(zs), src), [f(f(a, b), c) for a, b, c in zip(xs, ys, zs)], "eq"
     if fn == "pairwise":
         src, f = BINF[cb]
         return "%s pairwise %s" % (S, src), [f(a, b) for a, b in zip(xs, xs[1:])], "eq"
@@ -384,7 +396,7 @@ class Skip(Exception):
 
 ALLK = KINDS
 SEQK = ["list", "vector", "bytes", "string"]
-NUMK = ["list", "vector", "bytes", "stream"]
+NUMK = ["list", "vector", "bytes", "stream", "stream_dropped"]
 # fn -> (allowed kinds, callback family)
 TABLE = {
     "map": (NUMK, MAPF), "map_throw": (NUMK, None), "filter": (NUMK, PRED), "filter_throw": (NUMK, None), "reject": (NUMK, PRED),
@@ -392,10 +404,10 @@ TABLE = {
     "count": (NUMK, list(PRED) + ["truthy", "value"]), "any": (NUMK, list(PRED) + ["truthy"]), "all": (NUMK, list(PRED) + ["truthy"]),
     "find": (NUMK, PRED), "find?": (NUMK, PRED), "locate": (NUMK, PRED), "locate?": (NUMK, PRED), "locate_value": (["list", "vector", "bytes"], None),
     "take_while": (NUMK, PRED), "drop_while": (NUMK, PRED), "zip": (NUMK, None), "zip3": (NUMK, None), "zip_with": (NUMK, BINF),
-    "ziplongest": (NUMK, None), "ziplongest_with": (NUMK, BINF), "pairwise": (NUMK, BINF), "transpose": (["list"], None),
+    "ziplongest": (NUMK, None), "ziplongest_with": (NUMK, BINF), "ziplongest3_with": (NUMK, BINF), "zip3_with": (NUMK, BINF), "pairwise": (NUMK, BINF), "transpose": (["list"], None),
     "enumerate": (ALLK, None), "fold": (NUMK, BINF), "fold_from": (NUMK, BINF), "scan": (NUMK, BINF), "scan_from": (NUMK, BINF),
-    "sum": (NUMK, None), "product": (NUMK, None), "min": (ALLK, None), "max": (ALLK, None), "min_cmp": (["list"], CMPF), "max_cmp": (["list"], CMPF), "sort": (SEQK + ["stream"], None),
-    "sort_cmp": (["list", "vector", "bytes", "stream"], CMPF), "sort_on": (["list"], KEYF), "sort_pairs_stable": (["list"], CMPF),
+    "sum": (NUMK, None), "product": (NUMK, None), "min": (ALLK, None), "max": (ALLK, None), "min_cmp": (["list"], CMPF), "max_cmp": (["list"], CMPF), "sort": (SEQK + ["stream", "stream_dropped"], None),
+    "sort_cmp": (["list", "vector", "bytes", "stream", "stream_dropped"], CMPF), "sort_on": (["list"], KEYF), "sort_pairs_stable": (["list"], CMPF),
     "reverse": (ALLK, None), "unique": (ALLK, None), "group": (SEQK, None), "group_rel": (["list", "vector", "bytes"], REL),
     "group_n": (SEQK, None), "group'": (SEQK, None), "group_all": (["list"], KEYF), "window": (SEQK, None), "prefixes": (SEQK, None),
     "suffixes": (SEQK, None), "frequencies": (ALLK, None), "++": (["list", "vector", "bytes"], None), ".+": (["list"], None),
